@@ -131,7 +131,16 @@ def idiom_expr(rng, avail, cfg):
         return ("var", rng.choice(avail)) if avail else lit(rng)
     a, x, y = var(), var(), var()
     n = ("num", rng.choice([2, 3]), 0)
-    k = rng.randrange(14)
+    k = rng.randrange(17)
+    if k >= 14:
+        # a branch that is only defined where its guard holds (sqrt / log / a quotient), used as an operand:
+        # the other branch is the value wherever the guard fails, whatever the guarded expression does there
+        zero = ("num", 0, 0)
+        g = [("cond", ("rel", "gt", x, zero), ("fn", "sqrt", x), zero),
+             ("cond", ("rel", "gt", x, small_lit(rng)), ("fn", "log", x), zero),
+             ("cond", ("rel", "gt", ("fn", "abs", y), zero), ("div", x, y), zero),
+             ("cond", ("rel", "lt", x, zero), zero, ("pow", x, ("num", 5, -1)))][rng.randrange(4)]
+        return [("mul", a, g), ("sub", g, y), ("add", a, ("neg", g))][k - 14]
     if k >= 12:
         # phase shifts: a trigonometric function of a sum that contains pi (in either grouping)
         f = rng.choice(["sin", "cos", "tan"])
@@ -330,6 +339,40 @@ def sibling(m: "GModel", rng: random.Random) -> "GModel":
     for i, d in enumerate(ders):
         src = ders[(i + k) % len(ders)]
         sm.assigns[d] = (m.assigns[src][0], m.assigns[d][1])
+    return sm
+
+
+def refactored(m: "GModel", rng: random.Random) -> "GModel":
+    """the same model after a refactoring that leaves every derivative line as it is: some intermediates are computed
+    through one or two new helper intermediates (`w = y - x; s = a*w` for `s = a*(y - x)` becomes `s_h0 = ...; s = s_h0`).
+    Same names, same derivative assignments, another dependency depth — and so, possibly, another state order."""
+    import copy
+    sm = copy.deepcopy(m)
+    inters = [n for n in m.order if not m._is_deriv(n)]
+    if not inters:
+        return sm
+    pick = [n for n in inters if rng.random() < 0.5] or [rng.choice(inters)]
+    assigns, order = {}, []
+    for n in m.order:
+        e, comp = m.assigns[n]
+        if n in pick:
+            prev = e
+            for j in range(rng.choice([1, 2, 3])):
+                h = f"{n}_h{j}"
+                if h in m.assigns or h in m.states or h in m.params:
+                    break
+                assigns[h] = (prev, comp)
+                order.append(h)
+                if n in m.tags:
+                    sm.tags[h] = m.tags[n]
+                prev = ("var", h)
+            e = prev
+        assigns[n] = (e, comp)
+        order.append(n)
+    for n in m.assigns:
+        if n not in assigns:
+            assigns[n] = m.assigns[n]
+    sm.assigns, sm.order = assigns, order
     return sm
 
 
